@@ -20,6 +20,28 @@ Ltac dec := repeat (match goal with
   | |- context[?a <? ?b] => first [bt (a <? b) | bf (a <? b)]
   end; cbn [fst snd l_index l_cached app]).
 
+(** robust finishers: the proofs below do not depend on HOW the source writes its arithmetic - every comparison of the goal is split
+    with its specification, equalities of results are closed componentwise by [lia] (so [a - b - 1] and [a - (b + 1)], swapped
+    branches, negated conditions ... all go through), contradictory branches by [lia] as well *)
+Ltac eqm :=
+  lazymatch goal with
+  | |- Some _ = Some _ => apply f_equal; eqm
+  | |- (_, _) = (_, _) => apply f_equal2; eqm
+  | |- mkL _ _ = mkL _ _ => apply f_equal2; eqm
+  | |- @eq nat _ _ => lia
+  | |- cons _ _ = cons _ _ => apply f_equal2; eqm
+  | |- _ => first [reflexivity | exfalso; lia]
+  end.
+Ltac split_cmp :=
+  repeat (match goal with
+  | |- context[?a <=? ?b] => destruct (Nat.leb_spec a b)
+  | |- context[?a <? ?b] => destruct (Nat.ltb_spec a b)
+  | |- context[?a =? ?b] => destruct (Nat.eqb_spec a b)
+  | |- context[negb true] => cbn [negb]
+  | |- context[negb false] => cbn [negb]
+  end; cbn [fst snd l_index l_cached app andb orb negb]).
+Ltac crunch := split_cmp; first [eqm | exfalso; lia].
+
 Section Tie.
 Variables (len succ ix ca : nat).
 Hypothesis Hix : ix < len.
@@ -30,23 +52,23 @@ Local Notation s := (mkL ix ca).
 
 Theorem tie_prod_available : run (g_prod_available E) s = Some (pavail len ix succ, mkL ix (pavail len ix succ), []).
 Proof.
-  unfold g_prod_available, pavail. kt. destruct (Nat.lt_ge_cases ix succ) as [C|C]; dec; reflexivity.
+  unfold g_prod_available, pavail. kt. crunch.
 Qed.
 
 Theorem tie_work_available : run (g_work_available E) s = Some (dist len ix succ, mkL ix (dist len ix succ), []).
 Proof.
-  unfold g_work_available, dist. kt. destruct (Nat.le_gt_cases ix succ) as [C|C]; dec; reflexivity.
+  unfold g_work_available, dist. kt. crunch.
 Qed.
 
 Theorem tie_cons_available : run (g_cons_available E) s = Some (dist len ix succ, mkL ix (dist len ix succ), []).
 Proof.
-  unfold g_cons_available, dist. kt. destruct (Nat.le_gt_cases ix succ) as [C|C]; dec; reflexivity.
+  unfold g_cons_available, dist. kt. crunch.
 Qed.
 
 Theorem tie_advance_local n : n <= len ->
   run (g_advance_local E n) s = Some (tt, mkL (wadd len ix n) (ca - n), []).
 Proof.
-  intros Hn. unfold g_advance_local, wadd. kt. destruct (Nat.le_gt_cases len (ix + n)) as [C|C]; dec; reflexivity.
+  intros Hn. unfold g_advance_local, wadd. kt. crunch.
 Qed.
 
 Theorem tie_advance n : n <= len ->
